@@ -85,3 +85,6 @@ pub fn row_of<const C: usize>(a: &MergeSkaArray<u64>, i: usize) -> [u8; C] {
     while j < C { r[j] = a.variants[[i, j]]; j += 1; }
     r
 }
+pub fn count_at(a: &MergeSkaArray<u64>, i: usize) -> usize { a.variant_count[i] }
+pub fn kmer_at(a: &MergeSkaArray<u64>, i: usize) -> u64 { a.split_kmers[i] }
+pub fn counts_len(a: &MergeSkaArray<u64>) -> usize { a.variant_count.len() }
